@@ -30,6 +30,14 @@ def model_legal(vec, par, op, target):
     return True
 
 
+def model_next(vec, par, op, target):
+    if model_legal(vec, par, op, target):
+        v = list(vec)
+        v[op] = target
+        return tuple(v)
+    return tuple(vec)
+
+
 def build(par):
     import_repo()
     from eudoxia.workload import Pipeline
@@ -59,10 +67,13 @@ def request(p, ops, par, vec, op, target, tick=None):
     before = observe(p, ops)
     if before[0] != list(vec):
         raise Violation("C02.walk.state", {"got": before[0], "want": list(vec)}, tick)
-    legal = model_legal(vec, par, op, target)
+    by_value = isinstance(target, str) and target.startswith("=")
+    if by_value:
+        target = target[1:]
+    legal = model_legal(vec, par, op, target) and not by_value     # a state named by a bare string is no valid request
     raised = None
     try:
-        ops[op].transition(S(target))
+        ops[op].transition(target if by_value else S(target))
     except Exception as e:  # noqa: BLE001
         raised = e
     after = observe(p, ops)
@@ -98,7 +109,7 @@ def run_walk(scn):
     refused = 0
     try:
         for k, (op, target) in enumerate(scn["requests"]):
-            legal = model_legal(vec, par, op, target)
+            legal = model_legal(vec, par, op, target) if not str(target).startswith("=") else False
             vec = request(p, ops, par, vec, op, target, tick=k)
             sig.append((op, target, legal))
             if not legal:
@@ -129,6 +140,9 @@ def gen_walk(r):
                 target = r.choice(STATES)
         else:
             target = r.choice(STATES)
+        if r.random() < 0.04:
+            reqs.append([op, "=" + target])       # target given as the bare value string
+            continue
         if model_legal(vec, par, op, target):
             vec[op] = target
         reqs.append([op, target])
@@ -170,6 +184,7 @@ def sweep_state_machine():
                             for (o, t) in pth:
                                 cur = request(p, ops, par, cur, o, t)
                             request(p, ops, par, cur, op, target)
+                            request(p, ops, par, model_next(cur, par, op, target), op, "=" + target)
                         except Violation as v:
                             if len(violations) < 3:
                                 violations.append({"idx": triples, "family": "sweep", "violation": v.to_json(),
